@@ -17,6 +17,8 @@ func propOf(p string) string {
 		return "C10"
 	case "C19scale":
 		return "C19"
+	case "C05scale":
+		return "C05"
 	}
 	return p
 }
@@ -63,7 +65,7 @@ func eligible(prop string, p *progen.Prog) bool {
 		return emitters(p) > 0
 	case "C19":
 		return emitters(p) > 0 && !emitSlice(p) // routing emitters cannot attribute state reports (they carry no context)
-	case "C03scale":
+	case "C03scale", "C05scale":
 		return p.Par != nil && len(p.Par.Colls) > 0
 	case "C10scale", "C10scale8", "C19scale":
 		if p.Par == nil || (prop == "C19scale" && (p.Par.Emitters == 0 || p.Par.EmitSlice)) {
@@ -158,6 +160,10 @@ func mixFor(rng *rand.Rand, prop string) faultMix {
 		if rng.Intn(3) == 0 {
 			m.goexit = 60 + rng.Intn(150)
 		}
+	case "C18":
+		if rng.Intn(4) == 0 {
+			m.goexit = 40 + rng.Intn(100) // t.FailNow inside an instrumented task
+		}
 	case "C15":
 		m.cancelP = 30
 	case "C20mod":
@@ -186,7 +192,7 @@ func Generate(rng *rand.Rand, prop, tier string, gomaxprocs int) *Desc {
 	d := &Desc{Engine: "l2", Prop: prop, GOMAXPROCS: gomaxprocs}
 	progs := eligibleProgs(prop)
 	nexec := 1
-	if prop == "C03scale" || prop == "C10scale" || prop == "C10scale8" || prop == "C19scale" {
+	if prop == "C03scale" || prop == "C05scale" || prop == "C10scale" || prop == "C10scale8" || prop == "C19scale" {
 		return generateScale(rng, prop, tier, gomaxprocs, progs)
 	}
 	switch r := rng.Intn(10); {
@@ -314,7 +320,18 @@ func Generate(rng *rand.Rand, prop, tier string, gomaxprocs int) *Desc {
 			x.TaskOut = map[int]int{keep: x.TaskOut[keep]}
 		}
 		if rng.Intn(mix.cancelP) == 0 {
-			x.CancelMode = 1 + rng.Intn(5)
+			x.CancelMode = 1 + rng.Intn(6)
+			if x.CancelMode == CancelInPred {
+				x.CancelMode = CancelInTask
+				if f := p.Flow; f != nil {
+					for _, t := range f.Tasks {
+						if t.Pred != nil && rng.Intn(2) == 0 {
+							x.CancelMode, x.CancelTask = CancelInPred, t.ID
+							break
+						}
+					}
+				}
+			}
 			if x.CancelMode == CancelInElem {
 				x.CancelMode = CancelExternal
 				if p.Par != nil {
@@ -339,6 +356,13 @@ func Generate(rng *rand.Rand, prop, tier string, gomaxprocs int) *Desc {
 				for _, id := range taskIDs {
 					if rng.Intn(6) == 0 {
 						x.Stuck[id] = true
+					}
+				}
+				if f := p.Flow; f != nil {
+					for _, t := range f.Tasks {
+						if t.Pred != nil && rng.Intn(6) == 0 {
+							x.Stuck[1000+t.ID] = true // a predicate that is still running when the context ends
+						}
 					}
 				}
 			}
@@ -515,6 +539,7 @@ func generateScale(rng *rand.Rand, prop, tier string, gmp int, progs []int) *Des
 	x.Bools = [2]bool{rng.Intn(2) == 0, false}
 	total := 0
 	large := false
+	faultAt0 := 0
 	for _, c := range p.Par.Colls {
 		n := 1000 + rng.Intn(3000)
 		if tier == "thorough" {
@@ -527,10 +552,31 @@ func generateScale(rng *rand.Rand, prop, tier string, gmp int, progs []int) *Des
 			n = 257 + rng.Intn(600)
 		case (prop == "C10scale" || prop == "C19scale") && c.End != nil && !large:
 			n, large = 80000+rng.Intn(5000), true
+			if prop == "C19scale" && rng.Intn(3) == 0 {
+				// the first element call cancels the context while the rest is still being submitted
+				x.CancelMode, x.CancelTask, x.CancelOrd = CancelInElem, c.ID, 0
+			}
 		case prop == "C10scale" || prop == "C19scale":
 			n = rng.Intn(300)
+		case prop == "C05scale" && !large:
+			// a fault right at the beginning of a collection of more than 2^16 elements:
+			// everything behind it is submitted to a scheduler that has stopped, or is skipped
+			n, large = 70000+rng.Intn(4000), true
+			switch rng.Intn(3) {
+			case 0:
+				x.CancelMode, x.CancelTask, x.CancelOrd = CancelInElem, c.ID, 0
+			default:
+				if c.Err && rng.Intn(2) == 0 {
+					faultAt0 = progen.Err
+				} else {
+					faultAt0 = progen.Panic
+				}
+			}
 		}
 		cd := &CollD{Fail: map[int]int{}}
+		if faultAt0 != 0 {
+			cd.Fail[0], faultAt0 = faultAt0, 0
+		}
 		cd.Vals = make([]uint64, n)
 		cd.Keys = make([]uint64, n)
 		for k := range cd.Vals {
